@@ -22,18 +22,21 @@
 package main
 
 import (
+	"bufio"
 	"context"
 	_ "crypto/sha256"
 	_ "crypto/sha512"
 	"encoding/json"
 	"fmt"
 	"os"
+	"os/exec"
 	"path/filepath"
 	"sort"
 	"strconv"
 	"strings"
 	"sync"
 	"syscall"
+	"time"
 
 	"oras.land/oras-go/v2/content/oci"
 	"verifharness/common"
@@ -141,6 +144,10 @@ func (s *sim) applyMem(o ck.Op) {
 		if s.blobs[o.Blob] && !(undecodable[o.Blob] && !s.gcUniv) {
 			s.entries[o.Blob] = true
 			s.tags[o.Ref] = o.Blob
+		}
+	case "tagdigest":
+		if s.blobs[o.Blob] && !(undecodable[o.Blob] && !s.gcUniv) {
+			s.entries[o.Blob] = true // entered by digest only
 		}
 	case "untag":
 		delete(s.tags, o.Ref)
@@ -390,7 +397,11 @@ func randomOp(r *common.Rand, s *sim, sc *ck.Script) ck.Op {
 		case x < 90:
 			return ck.Op{Kind: "saveindex"}
 		default: // arbitrary arguments: error paths
-			switch r.Intn(4) {
+			switch r.Intn(6) {
+			case 4:
+				return ck.Op{Kind: "tagdigest", Blob: common.Pick(r, allIDs)}
+			case 5:
+				return ck.Op{Kind: "untagdigest", Blob: common.Pick(r, allIDs)}
 			case 0:
 				return ck.Op{Kind: "push", Blob: common.Pick(r, allIDs)}
 			case 1:
@@ -414,6 +425,7 @@ var finalKinds = []string{
 	"push-sha512", "push-manifest-sha512", "delete-sha512", "push-sha384",
 	"delete-after-variant-tag", "delete-variant", "tag-variant",
 	"push-undecodable", "tag-undecodable", "tag-undecodable-after-crash",
+	"tag-digest", "tag-digest-manifest", "untag-digest",
 }
 
 // realize extends the history so that the situation exists and returns the final op.
@@ -519,6 +531,17 @@ func realize(r *common.Rand, kind string, s *sim, hist *[]ck.Op) ck.Op {
 			do(ck.Op{Kind: "tag", Blob: man, Ref: 6})
 		}
 		return ck.Op{Kind: "tag", Blob: man, Ref: 6, Variant: true}
+	case "tag-digest":
+		// a layer entered into index.json by its digest only
+		id := common.Pick(r, []int{1, 3})
+		ensure(id, true)
+		return ck.Op{Kind: "tagdigest", Blob: id}
+	case "tag-digest-manifest":
+		ensure(man, true)
+		return ck.Op{Kind: "tagdigest", Blob: man}
+	case "untag-digest":
+		ensure(man, true)
+		return ck.Op{Kind: "untagdigest", Blob: man}
 	case "push-undecodable":
 		ensure(7, false)
 		return ck.Op{Kind: "push", Blob: 7}
@@ -821,6 +844,30 @@ func (p *prepared) truth(sc *ck.Script, hist []ck.Op, final ck.Op, scriptPath st
 var gcSucc = map[int][]int{4: {3}, 5: {3, 4}, 6: {3, 5}, 7: {3, 1}} // config, layers, subject
 var gcSubject = map[int]int{5: 4, 6: 5}
 
+// gcEntries: the links that keep content alive during a Delete cascade: config and layers, NOT the
+// subject field (a referrer does not keep its subject alive, C09 heldBySurvivor)
+var gcEntries = map[int][]int{4: {3}, 5: {3}, 6: {3}, 7: {3, 1}}
+
+func closureVia(edges map[int][]int, roots []int, present map[int]bool) map[int]bool {
+	live := map[int]bool{}
+	var visit func(int)
+	visit = func(x int) {
+		if live[x] {
+			return
+		}
+		live[x] = true
+		if present[x] {
+			for _, y := range edges[x] {
+				visit(y)
+			}
+		}
+	}
+	for _, r := range roots {
+		visit(r)
+	}
+	return live
+}
+
 func closure(roots []int, present map[int]bool) map[int]bool {
 	live := map[int]bool{}
 	var visit func(int)
@@ -907,7 +954,15 @@ func refCheck(sc *ck.Script, before, after *sim) []failure {
 		for _, b := range after.saved {
 			roots = append(roots, b)
 		}
-		for id := range closure(roots, before.blobs) {
+		// what a tagged manifest still reaches once the target is gone, through the links that
+		// count for a cascade (not through the deleted node, not through subject fields)
+		present := map[int]bool{}
+		for id := range before.blobs {
+			if id != o.Blob {
+				present[id] = true
+			}
+		}
+		for id := range closureVia(gcEntries, roots, present) {
 			if id != o.Blob && before.blobs[id] && !after.blobs[id] {
 				add("cascade-removed-live", "Delete(%d) with AutoGC removed blob %d, which a tagged manifest still reaches", o.Blob, id)
 			}
@@ -980,7 +1035,13 @@ func execSegment(sc *ck.Script, i int, p *prepared) bool {
 	doneSteps := nm.Project(done, map[int64]string{})
 	seg.J = len(doneSteps)
 	state := ck.ObserveDir(p.base, sc, p.sizes)
-	fails := oracle(p.base, trunc, before, after)
+	oracleRoot := p.base
+	if seg.Final.Kind == "init" {
+		// the oracle of an initialisation crash completes the initialisation: not on the directory
+		// the script continues with
+		oracleRoot = filepath.Join(p.fresh("o"))
+	}
+	fails := oracle(oracleRoot, trunc, before, after)
 	id := run.NewID()
 	judged := strings.HasPrefix(stepsText(recSteps)+" ", stepsText(doneSteps)+" ") || len(doneSteps) == 0
 	if judged {
@@ -995,6 +1056,19 @@ func execSegment(sc *ck.Script, i int, p *prepared) bool {
 	run.Count("earlier-crashes")
 	p.sim = observed(p.base, sc)
 	p.sim.noAuto, p.sim.gcUniv = sc.NoAutoSave, gcUniverse(sc)
+	if p.sim.gcUniv {
+		// Store.delete enters a dangling MANIFEST successor by digest when the resolver does not
+		// hold it (content/oci/oci.go delete()).  That needs a manifest that is in the graph
+		// but not in index.json: here only the leftover of a Push killed between the blob rename
+		// and the index rename, later reached through a referrer (4 <- 5 <- 6).  The model has
+		// no successor relation (C09's subject), so such scripts are not continued.
+		for _, id := range []int{4, 5} {
+			if p.sim.blobs[id] && !p.sim.entries[id] {
+				run.Count("script-abandoned-unindexed-manifest-with-referrer")
+				return false
+			}
+		}
+	}
 	return judged // the model cannot follow a cascade whose order it was not told
 }
 
@@ -1180,7 +1254,7 @@ func killAt(sc *ck.Script, scriptPath, root string, win []ck.Event, k int, sizes
 func oracle(root string, sc *ck.Script, before, after *sim) []failure {
 	var fails []failure
 	add := func(sig, f string, a ...any) { fails = append(fails, failure{sig, fmt.Sprintf(f, a...)}) }
-	if sc.Final.Kind == "init" && len(sc.Pre) == 0 {
+	if sc.Final.Kind == "init" {
 		// a crash during the very first oci.New: whatever it left, New must succeed now
 		// and give the empty store (index.json may legitimately not exist yet)
 		st, err := oci.New(root)
@@ -1250,6 +1324,32 @@ func oracle(root string, sc *ck.Script, before, after *sim) []failure {
 			} else if fi.Size() != m.Size {
 				add("index-dangling", "index.json entry %s has size %d, the blob %d", m.Digest, m.Size, fi.Size())
 			}
+			// the descriptor written for the entry: the media type the blob was pushed / tagged with
+			// ("" only through a digest+size-only Tag), and no other annotation than the reference
+			// name of a named entry (saveIndex / deleteAnnotationRefName)
+			if id, ok := byHex[m.Digest[strings.IndexByte(m.Digest, ':')+1:]]; ok {
+				if want := sc.Blob(id).MediaType; m.MediaType != want && m.MediaType != "" && m.MediaType != "application/octet-stream" {
+					add("index-entry-descriptor", "index.json entry of blob %d has media type %q, pushed as %q", id, m.MediaType, want)
+				}
+			}
+			for k := range m.Annotations {
+				if k != "org.opencontainers.image.ref.name" {
+					add("index-entry-descriptor", "index.json entry %s carries the annotation %q", m.Digest, k)
+				}
+			}
+			if r, ok := m.Annotations["org.opencontainers.image.ref.name"]; ok && r == "" {
+				add("index-entry-descriptor", "index.json entry %s has an empty reference name", m.Digest)
+			}
+		}
+		// one entry per reference name
+		seen := map[string]string{}
+		for _, m := range idx.Manifests {
+			if r, ok := m.Annotations["org.opencontainers.image.ref.name"]; ok {
+				if prev, dup := seen[r]; dup {
+					add("index-entry-descriptor", "reference %q appears twice in index.json (%s and %s)", r, prev, m.Digest)
+				}
+				seen[r] = m.Digest
+			}
 		}
 	}
 	// the entries of index.json (named and digest-only) are those before or those after; a
@@ -1288,6 +1388,11 @@ func oracle(root string, sc *ck.Script, before, after *sim) []failure {
 		add("reopen-fails", "listing tags of the reopened store: %v", err)
 		return fails
 	}
+	// ... and the reopened store's resolver is exactly what index.json says (agree_reopen: the
+	// loaded index is well-formed, so the next saveIndex would write the same entries)
+	if v := ck.SyncReport(ctx, st, root); v != "ok" && !sc.NoAutoSave {
+		add("reopen-resolver-differs", "after reopening, %s", v)
+	}
 	sort.Strings(got)
 	g := strings.Join(got, ",")
 	if g != before.tagString(sc) && g != after.tagString(sc) {
@@ -1320,6 +1425,376 @@ func deletedAfterLastSave(sc *ck.Script, id int) bool {
 		}
 	}
 	return false
+}
+
+// ---------- concurrent callers (C10_conc_crash_safe): oracle-only stress stream ----------
+// The kill-at-k machinery follows ONE thread; here several goroutines run Push/Tag/Untag/
+// SaveIndex concurrently and the whole process is killed at an arbitrary moment.  The model
+// is not compared (the schedule is not observable); the oracle checks what the theorem
+// states: layout, blobs, index entries, reopen, nothing stored before is lost, and every
+// reference on disk comes from before or from one of the concurrent Tags.
+func runConc(r *common.Rand, delayUS int, rp map[string]string) {
+	sc := &ck.Script{Blobs: universe(r, false)}
+	if rp != nil {
+		var err error
+		sc, err = ck.ParseScript([]byte(rp["script"]))
+		if err != nil {
+			panic(err)
+		}
+	} else {
+		s := newSim()
+		sc.History = genHistory(r, sc, s, r.Intn(5))
+		n := 2 + r.Intn(3)
+		for g := 0; g < n; g++ {
+			var ops []ck.Op
+			for i := 0; i < 1+r.Intn(3); i++ {
+				switch r.Intn(5) {
+				case 0, 1:
+					ops = append(ops, ck.Op{Kind: "push", Blob: common.Pick(r, []int{1, 2, 3, 4, 5, 6, 1001, 1002, 2001})})
+				case 2, 3:
+					ops = append(ops, ck.Op{Kind: "tag", Blob: common.Pick(r, []int{4, 5, 6, 1002, 1}), Ref: 1 + r.Intn(3)})
+				default:
+					if r.Bool() {
+						ops = append(ops, ck.Op{Kind: "untag", Ref: 1 + r.Intn(3)})
+					} else {
+						ops = append(ops, ck.Op{Kind: "saveindex"})
+					}
+				}
+			}
+			sc.Conc = append(sc.Conc, ops)
+		}
+	}
+	before := newSim()
+	for _, o := range sc.History {
+		before.apply(o)
+	}
+	dir, err := os.MkdirTemp(work, "conc")
+	if err != nil {
+		panic(err)
+	}
+	defer os.RemoveAll(dir)
+	root := filepath.Join(dir, "root")
+	os.Mkdir(root, 0o755)
+	scriptPath := filepath.Join(dir, "script.json")
+	os.WriteFile(scriptPath, []byte(sc.JSON()), 0o644)
+	cmd := exec.Command(exe, "conc", root, scriptPath)
+	out, err := cmd.StdoutPipe()
+	if err != nil {
+		panic(err)
+	}
+	if err := cmd.Start(); err != nil {
+		panic(err)
+	}
+	rd := bufio.NewReader(out)
+	ready := make(chan bool, 1)
+	finished := make(chan string, 1) // the child's SYNC verdict once all its calls have returned
+	go func() {
+		isReady := false
+		sync := "child exited without a verdict"
+		for {
+			l, err := rd.ReadString('\n')
+			switch {
+			case strings.HasPrefix(l, "READY"):
+				isReady = true
+				ready <- true
+			case strings.HasPrefix(l, "SYNC "):
+				sync = strings.TrimSpace(l[5:])
+			case strings.HasPrefix(l, "DONE"):
+				finished <- sync
+				return
+			}
+			if err != nil {
+				if !isReady {
+					ready <- false
+				} else {
+					finished <- sync
+				}
+				return
+			}
+		}
+	}()
+	select {
+	case ok := <-ready:
+		if !ok {
+			cmd.Process.Kill()
+			cmd.Wait()
+			run.Count("conc-child-not-ready")
+			return
+		}
+	case <-time.After(60 * time.Second):
+		cmd.Process.Kill()
+		cmd.Wait()
+		run.Count("conc-child-not-ready")
+		return
+	}
+	id := run.NewID()
+	rep := map[string]any{"script": sc, "conc_delay_us": delayUS}
+	fail := func(sig, f string, a ...any) {
+		run.OracleFail(id, sig, fmt.Sprintf(f, a...)+fmt.Sprintf(" (concurrent callers, killed %d us after release)", delayUS), rep)
+	}
+	if delayUS < 0 {
+		// not killed: all calls return (watchdog: a wedge is a failure within seconds), and then
+		// index.json is the index of the resolver (C10_conc_quiescent_synced)
+		select {
+		case verdict := <-finished:
+			cmd.Wait()
+			run.Count("conc-quiescent")
+			if verdict != "ok" {
+				fail("conc-quiescent-unsynced", "all concurrent calls have returned and %s", verdict)
+			}
+		case <-time.After(30 * time.Second):
+			cmd.Process.Kill()
+			cmd.Wait()
+			fail("conc-wedged", "the concurrent calls did not return within 30 s")
+			run.Case(id, "C "+common.Hex(sc.JSON()), "CONC")
+			return
+		}
+	} else {
+		time.Sleep(time.Duration(delayUS) * time.Microsecond)
+		cmd.Process.Kill()
+		cmd.Wait()
+		run.Count("conc-kills")
+	}
+	byHex := map[string]int{}
+	for _, b := range sc.Blobs {
+		byHex[b.Hex()] = b.ID
+	}
+	names, bad := ck.BlobFiles(root)
+	for _, b := range bad {
+		fail("conc-blob-corrupt", "blobs/%s does not hash to its name", b)
+	}
+	on := map[int]bool{}
+	for _, n := range names {
+		if id, ok := byHex[n]; ok {
+			on[id] = true
+		} else {
+			fail("conc-blob-corrupt", "blobs file %s is not a blob of the script", n)
+		}
+	}
+	for id := range before.blobs {
+		if !on[id] {
+			fail("conc-completed-lost", "blob %d stored before the concurrent calls is gone", id)
+		}
+	}
+	idx, status := ck.ReadRawIndex(root)
+	if status != "ok" {
+		fail("conc-index-unreadable", "index.json is %s", status)
+	} else {
+		tagged := map[string]bool{} // ref=blob pairs some concurrent Tag may have set
+		for _, ops := range sc.Conc {
+			for _, o := range ops {
+				if o.Kind == "tag" {
+					tagged[ck.RefName(o.Ref)+"="+sc.Blob(o.Blob).Digest()] = true
+				}
+			}
+		}
+		for rf, b := range before.tags {
+			tagged[ck.RefName(rf)+"="+sc.Blob(b).Digest()] = true
+		}
+		for _, m := range idx.Manifests {
+			if _, err := os.Stat(ck.BlobPath(root, m.Digest)); err != nil {
+				fail("conc-index-dangling", "index.json entry %s names a missing blob", m.Digest)
+			}
+			if rf, ok := m.Annotations["org.opencontainers.image.ref.name"]; ok && !tagged[rf+"="+m.Digest] {
+				fail("conc-tag-invented", "index.json has %s -> %s, which no Tag set", rf, m.Digest)
+			}
+		}
+	}
+	if st, err := oci.New(root); err != nil {
+		fail("conc-reopen-fails", "oci.New: %v", err)
+	} else if v := ck.SyncReport(context.Background(), st, root); v != "ok" {
+		fail("conc-reopen-resolver-differs", "after reopening, %s", v)
+	}
+	run.Case(id, "C "+common.Hex(sc.JSON()), "CONC")
+}
+
+// runConcModel: a batch of single concurrent calls run to completion, compared with the MODEL:
+// the directory they leave (index.json entries, blobs) must be the final directory of some
+// schedule of Model/OciCrashConc.v (the model runner explores all interleavings).  The calls
+// are chosen so that what each does is decided by the state before the batch (as in the model's
+// call_prog): pushes of blobs not stored yet, tags of blobs already stored, untags of existing
+// references, SaveIndex.
+func runConcModel(r *common.Rand, rp map[string]string, killUS int) {
+	sc := &ck.Script{Blobs: universe(r, false)}
+	if rp != nil {
+		var err error
+		sc, err = ck.ParseScript([]byte(rp["script"]))
+		if err != nil {
+			panic(err)
+		}
+	} else {
+		ids := []int{1, 2, 3, 4, 5, 6, 1001, 1002, 2001}
+		s := newSim()
+		for i := 0; i < r.Intn(5); i++ {
+			o := ck.Op{Kind: "push", Blob: common.Pick(r, ids)}
+			if s.blobs[o.Blob] {
+				continue
+			}
+			s.apply(o)
+			sc.History = append(sc.History, o)
+			if r.Bool() {
+				t := ck.Op{Kind: "tag", Blob: o.Blob, Ref: 1 + r.Intn(3)}
+				s.apply(t)
+				sc.History = append(sc.History, t)
+			}
+		}
+		n := 2 + r.Intn(2)
+		for g := 0; g < n; g++ {
+			var have, missing, refs []int
+			for _, id := range ids {
+				if s.blobs[id] {
+					have = append(have, id)
+				} else {
+					missing = append(missing, id)
+				}
+			}
+			for rf := range s.tags {
+				refs = append(refs, rf)
+			}
+			sort.Ints(refs)
+			var o ck.Op
+			switch k := r.Intn(6); {
+			case k <= 1 && len(missing) > 0:
+				o = ck.Op{Kind: "push", Blob: common.Pick(r, missing)}
+			case k <= 3 && len(have) > 0:
+				o = ck.Op{Kind: "tag", Blob: common.Pick(r, have), Ref: 1 + r.Intn(3)}
+			case k == 4 && len(refs) > 0:
+				o = ck.Op{Kind: "untag", Ref: common.Pick(r, refs)}
+			default:
+				o = ck.Op{Kind: "saveindex"}
+			}
+			sc.Conc = append(sc.Conc, []ck.Op{o})
+		}
+	}
+	dir, err := os.MkdirTemp(work, "concm")
+	if err != nil {
+		panic(err)
+	}
+	defer os.RemoveAll(dir)
+	root := filepath.Join(dir, "root")
+	os.Mkdir(root, 0o755)
+	scriptPath := filepath.Join(dir, "script.json")
+	os.WriteFile(scriptPath, []byte(sc.JSON()), 0o644)
+	cmd := exec.Command(exe, "conc", root, scriptPath)
+	pipe, err := cmd.StdoutPipe()
+	if err != nil {
+		panic(err)
+	}
+	if err := cmd.Start(); err != nil {
+		panic(err)
+	}
+	var outb strings.Builder // complete once eof is closed
+	ready := make(chan bool, 1)
+	eof := make(chan struct{})
+	go func() {
+		rd := bufio.NewReader(pipe)
+		sent := false
+		for {
+			l, err := rd.ReadString('\n')
+			outb.WriteString(l)
+			if !sent && strings.HasPrefix(l, "READY") {
+				sent = true
+				ready <- true
+			}
+			if err != nil {
+				if !sent {
+					ready <- false
+				}
+				close(eof)
+				return
+			}
+		}
+	}()
+	id := run.NewID()
+	rep := map[string]any{"script": sc, "conc_model": 1, "conc_kill_us": killUS}
+	var hs, cs, bl []string
+	for _, o := range sc.History {
+		hs = append(hs, o.String())
+	}
+	for _, ops := range sc.Conc {
+		cs = append(cs, ops[0].String())
+	}
+	for _, b := range sc.Blobs {
+		m := 0
+		if b.IsManifest() {
+			m = 1
+		}
+		if b.Undecodable() {
+			m = 2
+		}
+		bl = append(bl, fmt.Sprintf("%d:1:%d", b.ID, m))
+	}
+	text := "blobs=" + strings.Join(bl, ",") + ";hist=" + strings.Join(hs, ",") + ";conc=" + strings.Join(cs, "|") + ";final=saveindex"
+	prefix := "" // "any:" = killed: the directory of ANY configuration of any schedule
+	if killUS >= 0 {
+		// killed at an arbitrary moment: the directory left must be the directory of some
+		// configuration the model reaches under some schedule (a prefix of it)
+		ok := false
+		select {
+		case ok = <-ready:
+		case <-time.After(60 * time.Second):
+		}
+		if ok {
+			time.Sleep(time.Duration(killUS) * time.Microsecond)
+		}
+		cmd.Process.Kill()
+		<-eof
+		cmd.Wait()
+		if !ok {
+			run.Count("conc-child-not-ready")
+			return
+		}
+		prefix = "any:"
+		run.Count("conc-model-compared-killed")
+	} else {
+		select {
+		case <-eof:
+			cmd.Wait()
+		case <-time.After(30 * time.Second):
+			cmd.Process.Kill()
+			<-eof
+			cmd.Wait()
+			run.OracleFail(id, "conc-wedged", "the concurrent calls did not return within 30 s", rep)
+			run.Case(id, "Q "+text+" wedged", "QREACH yes")
+			return
+		}
+		if !strings.Contains(outb.String(), "SYNC ok") {
+			run.OracleFail(id, "conc-quiescent-unsynced", "all concurrent calls have returned and the child reports: "+strings.TrimSpace(outb.String()), rep)
+		}
+		run.Count("conc-model-compared")
+	}
+	// the observation in the model's vocabulary
+	byHex := map[string]int{}
+	for _, b := range sc.Blobs {
+		byHex[b.Hex()] = b.ID
+	}
+	obsIdx := "none"
+	if idx, status := ck.ReadRawIndex(root); status == "ok" {
+		var es []string
+		for _, m := range idx.Manifests {
+			e := strconv.Itoa(byHex[m.Digest[strings.IndexByte(m.Digest, ':')+1:]]) + "@"
+			if rf, ok := m.Annotations["org.opencontainers.image.ref.name"]; ok {
+				e += strings.TrimPrefix(rf, "t")
+			} else {
+				e += "-"
+			}
+			es = append(es, e)
+		}
+		sort.Strings(es)
+		obsIdx = "[" + strings.Join(es, ",") + "]"
+	}
+	names, _ := ck.BlobFiles(root)
+	on := map[int]bool{}
+	for _, n := range names {
+		on[byHex[n]] = true
+	}
+	var bs []string
+	for _, b := range sc.Blobs {
+		if on[b.ID] {
+			bs = append(bs, strconv.Itoa(b.ID))
+		}
+	}
+	run.Case(id, "Q "+text+" "+prefix+"I="+obsIdx+";B="+strings.Join(bs, ","), "QREACH yes")
 }
 
 // ---------- main ----------
@@ -1367,8 +1842,8 @@ func runGeneratedIn(r *common.Rand, sc *ck.Script, histLen int, kind string, all
 			kinds = gcKinds
 		}
 		kind := common.Pick(r, kinds)
-		if kind == "untag-missing" {
-			kind = "untag" // an Untag of an unknown reference issues no system call: nothing to be killed in
+		if kind == "untag-missing" || kind == "untag-digest" {
+			kind = "untag" // an Untag of an unknown reference / of a digest issues no system call: nothing to be killed in
 		}
 		seg.Final = pick(kind, s, &seg.History)
 		seg.K = r.Intn(1000)
@@ -1401,6 +1876,29 @@ func replay(path string) {
 		if err != nil {
 			panic(err)
 		}
+		if len(sc.Conc) > 0 && c["conc_model"] != "" {
+			d := -1
+			if v, ok := c["conc_kill_us"]; ok {
+				d, _ = strconv.Atoi(v)
+			}
+			for rep := 0; rep < 20; rep++ {
+				runConcModel(run.Rand, c, d)
+				if d >= 0 {
+					runConcModel(run.Rand, c, run.Rand.Intn(2*d+200))
+				}
+			}
+			continue
+		}
+		if len(sc.Conc) > 0 {
+			// timing is not reproducible: the same calls, killed at a spread of moments
+			d, _ := strconv.Atoi(c["conc_delay_us"])
+			for _, dd := range []int{d, d / 2, d * 2, 0, 500, 1500, 3000, 6000} {
+				for rep := 0; rep < 5; rep++ {
+					runConc(run.Rand, dd, c)
+				}
+			}
+			continue
+		}
 		k := -1
 		if v, ok := c["k"]; ok {
 			if n, err := strconv.Atoi(v); err == nil {
@@ -1414,6 +1912,9 @@ func replay(path string) {
 func main() {
 	if len(os.Args) >= 4 && os.Args[1] == "child" {
 		os.Exit(ck.ChildMain(os.Args[2], os.Args[3]))
+	}
+	if len(os.Args) >= 4 && os.Args[1] == "conc" {
+		os.Exit(ck.ConcMain(os.Args[2], os.Args[3]))
 	}
 	run = common.Start("C10")
 	syscall.Umask(0o022)
@@ -1437,7 +1938,7 @@ func main() {
 		return
 	}
 	r := run.Rand
-	nHist := run.Scale(4, 40)
+	nHist := run.Scale(4, 30)
 	perHist := len(finalKinds)
 	ki := int(run.Seed) * 5
 	for h := 0; h < nHist; h++ {
@@ -1455,6 +1956,19 @@ func main() {
 			runGenerated(r, histLen, kind, big, run.Thorough(), crashes)
 		}
 	}
+	// concurrent callers, killed at an arbitrary moment
+	for i := 0; i < run.Scale(40, 400); i++ {
+		runConc(r, r.Intn(run.Scale(6000, 12000)), nil)
+		if i%4 == 0 {
+			runConc(r, -1, nil) // run to completion: resolver and index.json agree
+		}
+		if i%2 == 0 {
+			runConcModel(r, nil, -1) // run to completion and compared with the model's reachable finals
+		}
+		if i%2 == 1 {
+			runConcModel(r, nil, r.Intn(2500)) // killed and compared with the model's reachable configurations
+		}
+	}
 	// AutoSaveIndex off: only SaveIndex writes index.json
 	for h := 0; h < run.Scale(1, 8); h++ {
 		for _, kind := range []string{"push-manifest", "tag-new", "tag-move", "untag", "delete-tagged", "delete-digest-only",
@@ -1464,14 +1978,25 @@ func main() {
 			runGeneratedIn(r, sc, r.Intn(6), kind, run.Thorough(), 0)
 		}
 	}
-	// the initialisation itself, killed at every system call
-	func() {
-		p := newPrepared()
-		defer p.close()
-		runMain(&ck.Script{Blobs: universe(r, false), Final: ck.Op{Kind: "init"}}, p, -1, true)
-	}()
+	// the initialisation itself, killed at every system call; then again on what one, two, three
+	// interrupted attempts left behind
+	for n := 0; n <= run.Scale(2, 3); n++ {
+		func() {
+			sc := &ck.Script{Blobs: universe(r, false), Final: ck.Op{Kind: "init"}}
+			p := newPrepared()
+			defer p.close()
+			for i := 0; i < n; i++ {
+				sc.Pre = append(sc.Pre, ck.Segment{Final: ck.Op{Kind: "init"}, K: r.Intn(1000)})
+				if !execSegment(sc, i, p) {
+					return
+				}
+			}
+			run.Count("init-after-interrupted-attempts:" + strconv.Itoa(n))
+			runMain(sc, p, -1, true)
+		}()
+	}
 	// Delete with AutoGC (cascades), GC and reopen, on the universe with referrers
-	nGC := run.Scale(2, 24)
+	nGC := run.Scale(2, 18)
 	for h := 0; h < nGC; h++ {
 		for _, kind := range gcKinds {
 			sc := &ck.Script{Blobs: universeGC(r), AutoGC: !strings.HasPrefix(kind, "gc-") || r.Bool()}
@@ -1500,6 +2025,10 @@ func checkFloors() {
 	need("earlier-crashes", run.Scale(15, 150))
 	need("final:gc", run.Scale(4, 30))
 	need("final:init", 1)
+	need("conc-kills", run.Scale(30, 300))
+	need("conc-quiescent", run.Scale(8, 80))
+	need("conc-model-compared", run.Scale(15, 150))
+	need("conc-model-compared-killed", run.Scale(15, 150))
 	need("autosave-off-scripts", run.Scale(8, 60))
 	need("final:reopen", run.Scale(3, 20))
 	need("composite-finals-with-cascade", run.Scale(2, 30))
